@@ -175,9 +175,14 @@ def _set_parents(tree):
             child._parent = node  # type: ignore[attr-defined]
 
 
-def _append_site(fi: FunctionInfo):
+def _append_sites(fi: FunctionInfo):
+    return _append_site(fi, every=True)
+
+
+def _append_site(fi: FunctionInfo, every=False):
     """(call, receiver expression, appended argument, inner loop, outer loop) of the
     n-gram append inside the doubly nested loop"""
+    found = []
     for c in ast.walk(fi.node):
         if isinstance(c, ast.Call) and len(c.args) == 1:
             loops = []
@@ -192,9 +197,11 @@ def _append_site(fi: FunctionInfo):
             if loops and len(loops) == 2:
                 f = c.func
                 is_append = (isinstance(f, ast.Attribute) and f.attr == "append") or isinstance(f, ast.Name)
-                if is_append and isinstance(c.args[0], ast.Call) and getattr(c, "_parent", None).__class__ is ast.Expr:
-                    return c, f, c.args[0], loops[0], loops[1]
-    return None
+                if is_append and getattr(c, "_parent", None).__class__ is ast.Expr:
+                    found.append((c, f, c.args[0], loops[0], loops[1]))
+    if every:
+        return found
+    return found[0] if found else None
 
 
 def _alpha(texts: List[str], locals_: set) -> List[str]:
@@ -237,6 +244,13 @@ def ngram_summary(repo, fi: FunctionInfo) -> Optional[Dict[str, object]]:
     if recv is None:
         return None
     # the window, with the join function abstracted
+    understood = True
+    if not isinstance(arg, ast.Call):
+        understood = False
+        # a window taken from a local or a table: the expression appended stands for itself
+        argx = ex.norm_expr(arg, fi, st)
+        understood = isinstance(argx, ast.Call)
+        arg = argx if isinstance(argx, ast.Call) else ast.Call(func=ast.Name(id="_", ctx=ast.Load()), args=[argx], keywords=[])
     win = ex.norm_expr(arg.args[0], fi, st) if arg.args else None
     texts = [xt(ex.norm_expr(outer.iter, fi, outer)), xt(ex.norm_expr(inner.iter, fi, inner)), xt(win) if win is not None else "?", xt(recv)]
     conds = sorted(pconds_cy(repo, fi).at(call))
@@ -264,20 +278,22 @@ def ngram_summary(repo, fi: FunctionInfo) -> Optional[Dict[str, object]]:
                         in_section = bool(set(c_) & set(conds)) or "ngram_range" in vt
                         if s_.lineno < outer.lineno and in_section:
                             binds.append((nm, [c for c in c_], vt))
-    flat = texts + [t for _, _, t in binds] + [c[0] for c in conds] + [c[0] for _, cs, _ in binds for c in cs]
+    # renaming order: loops, receiver, bindings and their facts, guards of the site, the window last
+    # (a local only the window or an extra guard uses does not shift the names of the rest)
+    texts = [texts[0], texts[1], texts[3]]
+    flat = texts + [t for _, _, t in binds] + [c[0] for _, cs, _ in binds for c in cs] + [c[0] for c in conds] + [xt(win) if win is not None else "?"]
     ren = _alpha(flat, locals_)
     k = len(texts)
-    out = {"outer": ren[0], "inner": ren[1], "window": ren[2], "receiver": ren[3]}
+    out = {"outer": ren[0], "inner": ren[1], "receiver": ren[2], "window": ren[-1], "window_understood": understood}
     vals = ren[k : k + len(binds)]
     pos = k + len(binds)
-    cr = ren[pos : pos + len(conds)]
-    pos += len(conds)
-    out["guards"] = sorted(zip(cr, [c[1] for c in conds]))
     bl = []
     for (nm, cs, _), v in zip(binds, vals):
         cc = ren[pos : pos + len(cs)]
         pos += len(cs)
         bl.append((sorted(zip(cc, [c[1] for c in cs])), v))
+    cr = ren[pos : pos + len(conds)]
+    out["guards"] = sorted(zip(cr, [c[1] for c in conds]))
     # keep the bindings that belong to the n-gram section or unpack the range
     out["bindings"] = sorted(map(str, bl))
     # what the function returns
@@ -350,12 +366,18 @@ def check_b(ck, repo):
     mine_fi = FunctionInfo("_word_ngrams", fi.qualname + "#noresolve", fi.node, None)
     a = ngram_summary(repo, mine_fi)
     b = ngram_summary(repo, pfi)
+    if len(_append_sites(mine_fi)) > 1:
+        ck.unknown("C14.b", fi, "n-gram loop nest", f"{len(_append_sites(mine_fi))} append sites in the doubly nested loop: which windows are emitted is decided by their guards together, a shape this rule does not compare")
+        return
     if a is None or b is None:
         ck.unknown("C14.b", fi, "n-gram loop nest", f"n-gram append site not found (override: {a is not None}, {owner}: {b is not None})")
         return
     # the wrapping into tuples happens before the section: bindings made outside the
     # n-gram guard other than the unpacking of ngram_range are not part of the comparison
     for k in ("outer", "inner", "window", "receiver", "guards", "returns"):
+        if k == "window" and a[k] != b[k] and not a["window_understood"]:
+            ck.unknown("C14.b", fi, f"n-gram section: window = {str(a[k])[:70]}", "the value appended is not the join of a window of the tokens in a form this analysis expands")
+            continue
         ck.verdict(a[k] == b[k], "C14.b", fi, f"n-gram section: {k} = {str(a[k])[:70]}", f"identical to {owner}._word_ngrams (expanded, local names renamed, join function abstracted)", f"the n-gram section differs from {owner}._word_ngrams in its {k}: {a[k]} vs {b[k]}: the set or order of n-grams is not scikit-learn's")
     mine_b = [x for x in a["bindings"]]
     their_b = [x for x in b["bindings"]]
